@@ -22,11 +22,12 @@ ASSUMPTIONS = [
 
 def gen_case(r):
     d = G.hostile_doc(r, 4 if r.coin(50) else 3)
-    if r.pct() < 2:
+    if r.pct() < 1:
         # a mapping (or list) of a thousand and more items, with rule paths through keys it has and keys it lacks
         from ..terms import RuleT, PathT, Prim, Leaf, Part
-        n_ = r.choice([1023, 1024, 1025, 1500])
-        big = {f"k{i}": G.hostile_scalar(r) for i in range(n_)} if r.coin(70) else [G.hostile_scalar(r) for _ in range(n_)]
+        n_ = r.choice([1023, 1024, 1025, 1100])
+        vals = G.fill(r, n_, G.hostile_scalar)
+        big = {f"k{i}": v for i, v in enumerate(vals)} if r.coin(70) else vals
         d = {"big": big, "small": {"k1": "true"}} if r.coin() else big
         pre = [Prim("big")] if isinstance(d, dict) and "big" in d else []
         keys = ["k1", "absent", "k1024", 5, 2000, 2.5]
